@@ -117,10 +117,11 @@ enum Dmg {
     LenMax,
     SnapHeaderSize,
     SnapHeader,
+    SnapHeaderCounters,
     SnapData,
 }
 const WAL_DMG: [Dmg; 15] = [Dmg::FlipTxnId, Dmg::FlipRandom, Dmg::FlipLenPrefix, Dmg::FlipTagOrHeader, Dmg::FlipKey, Dmg::FlipValue, Dmg::FlipHmac, Dmg::Overwrite, Dmg::Truncate, Dmg::AppendGarbage, Dmg::DuplicateRecord, Dmg::Transplant, Dmg::LenZero, Dmg::LenHuge, Dmg::LenMax];
-const SNAP_DMG: [Dmg; 6] = [Dmg::FlipRandom, Dmg::SnapHeaderSize, Dmg::SnapHeader, Dmg::SnapData, Dmg::Truncate, Dmg::AppendGarbage];
+const SNAP_DMG: [Dmg; 8] = [Dmg::FlipRandom, Dmg::SnapHeaderSize, Dmg::SnapHeader, Dmg::SnapHeaderCounters, Dmg::SnapHeaderCounters, Dmg::SnapData, Dmg::Truncate, Dmg::AppendGarbage];
 
 struct Built {
     image: DirImage,
@@ -329,6 +330,16 @@ fn damage(rng: &mut Rng, img: &mut DirImage, d: Dmg, file_idx: usize, foreign: &
             }
             (None, true, 0)
         }
+        Dmg::SnapHeaderCounters => {
+            // the small counters right after version and creation time (last transaction id, entry
+            // count, total size): one flipped bit turns them into other plausible numbers
+            if bytes.len() > 16 {
+                let at = 4 + rng.urange(5, 11);
+                flip(bytes, at, rng);
+                return (None, true, at);
+            }
+            (None, true, 0)
+        }
         Dmg::SnapData => {
             if bytes.len() > 8 {
                 let hs = u32::from_le_bytes([bytes[0], bytes[1], bytes[2], bytes[3]]) as usize;
@@ -377,6 +388,29 @@ fn keys_touched_from(img: &DirImage, file: &str, from: usize) -> BTreeSet<String
     // batches that never got a marker
     for (_, members) in open {
         out.extend(members);
+    }
+    out
+}
+
+/// keys whose recovered value is decided by the logs alone: touched by at least one record that
+/// replay applies (a plain upsert / delete, or a batch member whose commit marker is present)
+fn keys_decided_by_logs(img: &DirImage) -> BTreeSet<String> {
+    let mut out = BTreeSet::new();
+    let mut files: Vec<&(String, Vec<u8>)> = img.iter().filter(|(n, _)| is_wal(n)).collect();
+    files.sort_by_key(|(n, _)| (n == "state.wal", n.clone()));
+    for (_, b) in files {
+        let mut open: HashMap<u64, Vec<String>> = HashMap::new();
+        for (_, _, e) in wal_records(b) {
+            let Some(e) = e else { continue };
+            use saorsa_core::TransactionType as T;
+            match e.transaction_type {
+                T::Upsert | T::Delete => {
+                    out.insert(e.key);
+                }
+                T::Batch => open.entry(e.transaction_id).or_default().push(e.key),
+                T::Checkpoint => out.extend(open.remove(&e.transaction_id).unwrap_or_default()),
+            }
+        }
     }
     out
 }
@@ -522,6 +556,21 @@ async fn scenario(mon: &Monitor, rng: &mut Rng, per_store: usize) {
                 }
             }
         }
+        // (d') damage confined to a snapshot leaves every log record intact: whatever recovery makes
+        // of the snapshot, each key the logs touch must end up as the logs say
+        if snap {
+            {
+                mon.eval();
+                let touched = keys_decided_by_logs(&b.image);
+                mon.count("snapshot_damage.log_keys_judged", touched.len() as u64);
+                for k in &touched {
+                    if out.state.get(k) != clean.state.get(k) {
+                        mon.violation(&format!("honour/intact-log-records-not-honoured-after-snapshot-damage/{d:?}"), ctx(json!({"key": k, "recovered": out.state.get(k).map(|v| v.0), "expected": clean.state.get(k).map(|v| v.0)})));
+                        break;
+                    }
+                }
+            }
+        }
         if mon.want_sample() && rec_idx.is_some() {
             mon.sample(ctx(json!({"recovered_keys": out.state.len(), "clean_keys": clean.state.len(), "entries_failed": out.entries_failed, "corruption_events": out.corruption_events, "peak_bytes": out.peak})));
         }
@@ -534,6 +583,8 @@ fn main() {
         child_main(&args[2]);
     }
     let mon = Monitor::new("C07", "fault_enumeration");
+    // supplementary sanitizer lanes (thorough tier): built and run alongside the behavioural workload, joined before the verdict
+    let lanes = checks::lanes::start(&mon, &[("asan", "c07", "240"), ("memcheck", "c07", "240")]);
     mon.set_rule("case = one damaged state directory (built by a real operation history) recovered by a fresh manager in a child process; non-trivial when the damage lands inside a record, a length prefix or a snapshot; distinct by (file kind, damage class, single/multi, framing intact)");
     mon.assume("the integrity key file is not damaged (the property speaks of log and snapshot files)");
     mon.assume("'honoured' is judged per key: keys not touched by the damaged record (framing intact) or by any record from the damage on (framing broken) must recover exactly as from the undamaged directory");
@@ -554,6 +605,6 @@ fn main() {
     });
     scratch_cleanup();
     // supplementary sanitizer lane (thorough): recovery of damaged directories under AddressSanitizer
-    checks::lanes::run(&mon, "asan", "c07", "60");
+    checks::lanes::join(&mon, lanes);
     mon.finish();
 }
